@@ -115,15 +115,20 @@ def named(params: List[Dict[str, Any]]) -> List[str]:
     return [p["name"] for p in params if p["kind"] in ("po", "pk", "ko")]
 
 
-def render_sig_function(fid: str, params: List[Dict[str, Any]], kind: str) -> str:
-    """Render the function under test + its bare twin + a twin with a condition naming a foreign parameter."""
+def render_sig_function(fid: str, params: List[Dict[str, Any]], kind: str, cond_defaults=()) -> str:
+    """Render the function under test + its bare twin + a twin with a condition naming a foreign parameter.
+
+    ``cond_defaults``: names for which the single-parameter condition declares a default of its own (``lambda x, limit=limit``);
+    the condition must still see the value of the call.
+    """
     names = named(params)
     allnames = [p["name"] for p in params]
     out = []
     full = names + ["_ARGS", "_KWARGS"]
     out.append("def c_all_{f}({a}):\n    return HUB.cond('all_{f}', {g})\n".format(f=fid, a=", ".join(full), g=got_text(full)))
     for n in names:
-        out.append("def c_{n}_{f}({n}):\n    return HUB.cond('one_{n}_{f}', {g})\n".format(f=fid, n=n, g=got_text([n])))
+        out.append("def c_{n}_{f}({n}{d}):\n    return HUB.cond('one_{n}_{f}', {g})\n".format(
+            f=fid, n=n, g=got_text([n]), d="=CDEFAULT" if n in cond_defaults else ""))
     out.append("def s_{f}({a}):\n    return HUB.capture('snap_{f}', {g})\n".format(f=fid, a=", ".join(names), g=got_text(names)))
     pfull = full + ["result", "OLD"]
     out.append("def p_{f}({a}):\n    return HUB.cond('post_{f}', {g})\n".format(f=fid, a=", ".join(pfull), g=got_text(pfull)))
@@ -184,7 +189,7 @@ def classify(params, args, kwargs, name: Optional[str], exc: Optional[BaseExcept
 def run_batch(w, batch: List[Tuple[str, List[Dict[str, Any]], str]], exhaustive_shapes: bool) -> None:
     """batch: [(fid, params, kind)]"""
     rng = w.rng
-    src = ["import icontract\n"]
+    src = ["import icontract\n\nCDEFAULT = object()  # default value of condition parameters (never the value of a call)\n"]
     dflt = prog.Defaults()
     dflt_kinds = {}  # type: Dict[str, Dict[str, str]]
     for fid, params, kind in batch:
@@ -202,7 +207,7 @@ def run_batch(w, batch: List[Tuple[str, List[Dict[str, Any]], str]], exhaustive_
                 else:
                     dk[p["name"]] = "tok"
         dflt_kinds[fid] = dk
-        src.append(render_sig_function(fid, params, kind))
+        src.append(render_sig_function(fid, params, kind, cond_defaults={n for n in named(params) if rng.random() < 0.3}))
     loaded = prog.load_source("".join(src), w.scratch(), extra_globals={"DFLT": dflt})
     hub = loaded.hub
     mod = loaded.module
@@ -224,6 +229,14 @@ def run_batch(w, batch: List[Tuple[str, List[Dict[str, Any]], str]], exhaustive_
             for npos, kws in shapes:
                 args = tuple(Tok("p{}".format(i)) for i in range(npos))
                 kwargs = {k: Tok("k_" + k) for k in kws}
+                if (args or kwargs) and rng.random() < 0.2:
+                    # None as the value of an argument (no library code may take it for "not supplied")
+                    j = rng.randrange(len(args) + len(kwargs))
+                    if j < len(args):
+                        args = args[:j] + (None,) + args[j + 1:]
+                    else:
+                        kwargs[list(kwargs)[j - len(args)]] = None
+                    w.count("calls_with_none_argument")
                 # the function underneath a bound method receives the instance / class as its first positional argument
                 args_seen = args if kind in ("function", "async") else (inst,) + args
                 # ground truth for "Python can bind the call" and for the binding itself: calling the bare twin, which
@@ -251,7 +264,7 @@ def run_batch(w, batch: List[Tuple[str, List[Dict[str, Any]], str]], exhaustive_
                 w.count("probe_events", len(events))
                 body_ev = [e for e in events if e.kind == "body"]
                 made = hub.factory_made.get("post_" + fid, [])
-                if not (isinstance(exc, probe.FactoryError) and made and exc is made[-1]) or len(body_ev) != 1:
+                if not (isinstance(exc, probe.FACTORY_ERRORS) and made and exc is made[-1]) or len(body_ev) != 1:
                     key = classify(params, args, kwargs, None, exc, dflt_kinds[fid])
                     w.violation(key, "call {}({} positionals, keywords {}) that Python binds did not run through all probes: {}: {}".format(
                         sig_text(params), npos, list(kws), type(exc).__name__, str(exc)[:300]), case,
@@ -352,4 +365,6 @@ def run(w) -> None:
 def replay(case, w) -> None:
     params = case["params"]
     kind = case.get("kind", "function")
-    run_batch(w, [("r0", params, kind)], True)
+    # (which conditions carry defaults and which argument is None are drawn at random: repeat to cover the combinations)
+    for i in range(6):
+        run_batch(w, [("r{}".format(i), [dict(p) for p in params], kind)], True)
